@@ -108,6 +108,7 @@ const PROFILES: &[Profile] = &[
     prof("mixed", "map", "mixed"),
     prof("reserve", "map", "reserve"),
     prof("iter", "map", "iter"),
+    prof("xback", "map", "xback"),
     // fault sweeps
     Profile { sweep: Some("panic"), sweep_ops: 6, sweep_k: 16, steps: Some(70), ..prof("panic-mixed", "map", "mixed") },
     Profile { sweep: Some("panic"), sweep_ops: 4, sweep_k: 24, steps: Some(90), drop: Some(true), ..prof("panic-sat-drop", "map", "saturate") },
